@@ -393,7 +393,28 @@ func run(real bool, ops []Op, vars []string) (fail string, judged, unjudged int)
 		}
 	}
 	if anyMock && remocked && ops[len(ops)-1].K != kGC {
+		// the method table the variable points to is not visible to the collector through the variable (the
+		// compiler does not mark an interface's table word as a pointer): it must survive the collection
+		// byte for byte. Looked at before anything is called through it, so that a reclaimed table is a
+		// reported difference and not a jump into reclaimed memory.
+		tabs := map[string][]byte{}
+		for _, v := range vars {
+			vm := model[v]
+			if vm.mocked && !vm.dirty && !vm.displaced && !vm.partial {
+				if tab := t.Words(v)[0]; tab != 0 {
+					tabs[v] = vk.Copy(tab, 256)
+				}
+			}
+		}
 		gc()
+		for _, v := range vars {
+			if before, ok := tabs[v]; ok {
+				judged++
+				if after := vk.Copy(t.Words(v)[0], 256); string(after) != string(before) {
+					return fmt.Sprintf("table-reclaimed: after a garbage collection at the end of the history the method table that variable %s holds no longer has its contents (first words %x, before %x): nothing kept it alive", v, after[:16], before[:16]), judged, unjudged
+				}
+			}
+		}
 		for _, v := range vars {
 			vm := model[v]
 			if !vm.mocked || vm.dirty || vm.displaced || vm.partial {
